@@ -241,7 +241,7 @@ func main() {
 		"8 versions (ns-granular) x 3 hop lifetimes x 3 types x 4 hidden-path groups, " +
 		"expiry clean-ups, prefix deletions, next-query writes, and queries with random filter " +
 		"combinations; non-trivial = op on a non-empty store; distinct by op line within history"
-	nHist := e.N(300, 4000)
+	nHist := e.N(300, 3000)
 	if os.Getenv("VERIF_STORES_HIST") != "" {
 		fmt.Sscan(os.Getenv("VERIF_STORES_HIST"), &nHist)
 	}
@@ -407,6 +407,9 @@ func (h *history) pathOp() {
 		}
 	case k < 53: // delete expired
 		now := base + int64(r.Intn(8))*150 + int64(r.Intn(3)) - 1
+		if len(h.pref) > 0 && r.Chance(50) { // boundary: a stored expiry and its neighbours
+			now = h.pref[h.anyPathID()].s.maxExp + int64(r.Intn(3)) - 1
+		}
 		op := fmt.Sprintf("pdelexp %d", now)
 		want := 0
 		for id, row := range h.pref {
@@ -742,6 +745,9 @@ func (h *history) beaconOp() {
 		}
 	case k < 52:
 		now := base + int64(r.Intn(8))*150 + int64(r.Intn(3)) - 1
+		if row := h.anyBeacon(); row != nil && r.Chance(50) { // boundary
+			now = row.s.maxExp + int64(r.Intn(3)) - 1
+		}
 		want := 0
 		for id, row := range h.bref {
 			if row.s.maxExp < now {
@@ -810,6 +816,19 @@ func (h *history) beaconOp() {
 	default:
 		h.beaconQuery(tg)
 	}
+}
+
+// anyBeacon picks a stored beacon (deterministically in the seed), nil if there is none.
+func (h *history) anyBeacon() *brow {
+	if len(h.bref) == 0 {
+		return nil
+	}
+	var ids []string
+	for id := range h.bref {
+		ids = append(ids, id)
+	}
+	sort.Strings(ids)
+	return h.bref[ids[h.r.Intn(len(ids))]]
 }
 
 func (h *history) candidates(tg func(string) string) {
@@ -925,6 +944,9 @@ func (h *history) beaconQuery(tg func(string) string) {
 	valid := "-"
 	if r.Chance(33) {
 		t := base + int64(r.Intn(8))*150 + int64(r.Intn(3)) - 1
+		if row := h.anyBeacon(); row != nil && r.Chance(50) { // boundaries of a validity window
+			t = []int64{row.s.key.infoTS, row.s.maxExp}[r.Intn(2)] + int64(r.Intn(3)) - 1
+		}
 		p.ValidAt = time.Unix(t, 0)
 		valid = fmt.Sprint(t)
 	}
